@@ -42,7 +42,7 @@ Theorem C12_record_roundtrip :
     lookup_exact (ascii_lower key) (table_of c) = Some order ->
     para_get key p = Some (Multi (spec_records order (row :: rows))) ->
     forallb (row_ok order) (row :: rows) = true ->
-    para_dumpable c ci p = true ->
+    para_dumpable c b ci p = true ->
     exists s, get_as_string c b ci p key = Ok s
               /\ mv_parse_field order s = Multi (spec_records order (row :: rows)).
 Proof. exact record_roundtrip. Qed.
@@ -58,6 +58,15 @@ Theorem C12_parse_exposes_records :
     mv_parse_field order contents = Multi (spec_records order rows).
 Proof. exact parse_exposes_records. Qed.
 
+(** 1b'. The single-line form: a stored value without line boundary holding one value per
+         sub-field becomes ONE mapping with the documented names. *)
+Theorem C12_parse_single_line :
+  forall c key order contents toks,
+    lookup_exact (ascii_lower key) (table_of c) = Some order ->
+    spec_single order contents = Some toks ->
+    mv_parse_field order contents = Single (combine order toks).
+Proof. exact parse_single_line. Qed.
+
 (** 1c. The constructor on a whole paragraph (pairs as Deb822 stored them, distinct
         field names): every structured field of the class that is present is replaced by
         its records, all other fields and the order of the fields are kept, and nothing
@@ -70,18 +79,51 @@ Proof. exact mv_init_map. Qed.
 
 (** 2. dump_total_on_subsets.  [para_dumpable] constrains only the entries that ARE in the
        paragraph (a structured field present must be a non-empty list of records that
-       have every sub-field, LF-free; any other field a string); it asks nothing about
-       the class's structured fields that are absent.  So for EVERY subset of the
+       have every sub-field, LF-free — or ONE such mapping, the single-line form, except
+       in a Release under "dak", where the code cannot dump that form; any other field a
+       string); it asks nothing about the class's structured fields that are absent.  So for EVERY subset of the
        structured fields being present — and any record contents, duplicates, key
        spellings — dump raises nothing.  (On the tree before the fix this fails for
        PdiffIndex and Release/dak: D8.) *)
 Theorem C12_dump_total_on_subsets :
-  forall c b ci p, para_dumpable c ci p = true -> is_ok (dump_para c b ci p) = true.
+  forall c b ci p, para_dumpable c b ci p = true -> is_ok (dump_para c b ci p) = true.
 Proof. exact dump_para_total. Qed.
+
+(** 2a. Explicitly: ANY selection of the fields of a dumpable paragraph (so: any subset of
+        the structured fields, with or without the other fields) dumps without error. *)
+Theorem C12_every_subset_dumps :
+  forall c b ci p (keep : str * fvalue -> bool),
+    para_dumpable c b ci p = true -> is_ok (dump_para c b ci (filter keep p)) = true.
+Proof. exact dump_total_subsets. Qed.
+
+(** 2a'. "Can always be dumped", over histories.  [states c ci p es] are the states one
+         object goes through under the in-place edits [es] of MvCheck's case format
+         (p[k][i] = rec, p[k][i][sub] = v, pop(0)+append, append, p[k] = value, del p[k];
+         it stops at the first edit that raises).  If the edits hand over complete records,
+         LF-free values and dumpable values ([edit_ok]; indices and key presence are
+         unconstrained), every state reached from a dumpable object dumps without error —
+         whatever fields have been deleted or added on the way. *)
+Theorem C12_always_dumpable :
+  forall c b ci es p q,
+    para_dumpable c b ci p = true -> forallb (edit_ok c b ci) es = true ->
+    In q (states c ci p es) -> is_ok (dump_para c b ci q) = true.
+Proof. exact always_dumpable. Qed.
+
+(** 2b. The same for PARSED paragraphs, i.e. K(text).dump(): if every structured field that
+        is present in the text has complete continuation lines, or is in the single-line form
+        as "SHA1-Current: <hash> <size>" of real pdiff Index files ([raw_ok]: nothing is asked
+        about the fields that are absent), the constructor succeeds and the dump of the
+        parsed object raises nothing — for every class, both behaviours and every subset
+        of the class's structured fields being present in the text. *)
+Theorem C12_parsed_dump_total :
+  forall c b raw,
+    distinct_keys (map fst raw) = true -> raw_ok c b raw = true ->
+    exists q, mv_init (table_of c) raw = Ok q /\ is_ok (dump_para c b true q) = true.
+Proof. exact parsed_dump_total. Qed.
 
 (** every paragraph of the property's domain is dumpable *)
 Theorem C12_domain_is_dumpable :
-  forall c ci p sp, in_domain c p = Some sp -> para_dumpable c ci p = true.
+  forall c b ci p sp, in_domain c p = Some sp -> para_dumpable c b ci p = true.
 Proof. exact in_domain_dumpable. Qed.
 
 (** 3. size_right_aligned.  The printed value of a structured field is exactly the
@@ -93,7 +135,7 @@ Theorem C12_size_right_aligned :
     lookup_exact (ascii_lower key) (table_of c) = Some order ->
     para_get key p = Some (Multi (spec_records order (row :: rows))) ->
     forallb (row_ok order) (row :: rows) = true ->
-    para_dumpable c ci p = true ->
+    para_dumpable c b ci p = true ->
     get_as_string c b ci p key = Ok (spec_value c b order (row :: rows)).
 Proof. exact get_as_string_documented. Qed.
 
@@ -139,6 +181,18 @@ Theorem C12_dump_is_documented_text :
   forall c b ci p sp, in_domain c p = Some sp -> dump_para c b ci p = Ok (spec_dump c b sp).
 Proof. exact dump_para_spec. Qed.
 
+(** the same for parsed paragraphs (plain fields arbitrary): what MvCheck.holds_parsed tests *)
+Theorem C12_dump_is_documented_text_parsed :
+  forall c b ci p sp,
+    distinct_keys (map fst p) = true -> spara_of false c p = Some sp ->
+    dump_para c b ci p = Ok (spec_dump c b sp).
+Proof. exact (dump_para_spec_gen false). Qed.
+
+(** the paragraph of the domain IS the paragraph the specification expects back *)
+Theorem C12_domain_paragraph_is_spec :
+  forall c p sp, in_domain c p = Some sp -> para_of_spara c sp = p.
+Proof. exact in_domain_is_spec. Qed.
+
 Theorem C12_paragraph_reparse :
   forall c b p sp, in_domain c p = Some sp -> mv_init (table_of c) (spec_raw c b sp) = Ok p.
 Proof. exact reparse_in_domain. Qed.
@@ -161,7 +215,7 @@ Example C12_nonvacuous_pdiff :
     sp = [(s "SHA1-Current", SRows [[s "abc"; s "12345"]]);
           (s "Origin", SText (s "Debian"));
           (s "sha256-history", SRows [[s "d1"; s "7"; s "2026-01-01"]; [s "d2"; s "1234"; s "2026-01-02"]])]
-    /\ para_dumpable PdiffIndex true p = true
+    /\ para_dumpable PdiffIndex Apt true p = true
     /\ build PdiffIndex p = Ok p
     /\ dump_para PdiffIndex Apt true p
        = Ok (s "SHA1-Current:\00000a abc 12345\00000aOrigin: Debian\00000asha256-history:\00000a d1    7 2026-01-01\00000a d2 1234 2026-01-02\00000a")
@@ -181,7 +235,42 @@ Example C12_nonvacuous_release :
     /\ spec_rows (map s ["md5sum"; "size"; "name"]) (s "\00000a 0f   5 main/a\00000a 1e 123 main/b")
        = Some [[s "0f"; s "5"; s "main/a"]; [s "1e"; s "123"; s "main/b"]]
     /\ mv_init (table_of Release) (spec_raw Release Dak sp) = Ok p
+    /\ raw_ok Release Dak (spec_raw Release Dak sp) = true
+    /\ distinct_keys (map fst (spec_raw Release Dak sp)) = true
   end.
+Proof. vm_compute. repeat split. Qed.
+
+(** A history: all four Release fields under "dak", then SHA1 deleted, a longer size
+    appended to SHA256, MD5Sum deleted: three more states, every edit well-formed. *)
+Example C12_nonvacuous_history :
+  let s := dec in
+  let fld k h := (s k, Multi [[(s h, s "a"); (s "size", s "1"); (s "name", s "n")]]) in
+  let p : para := [fld "MD5Sum" "md5sum"; fld "SHA1" "sha1"; fld "SHA256" "sha256"; fld "SHA512" "sha512"] in
+  let es := [EDel (s "sha1");
+             EAppend (s "SHA256") [(s "sha256", s "b"); (s "size", s "12345"); (s "name", s "m")];
+             EDel (s "MD5SUM")] in
+  para_dumpable Release Dak true p = true
+  /\ forallb (edit_ok Release Dak true) es = true
+  /\ length (states Release true p es) = 4%nat
+  /\ map (fun q => is_ok (dump_para Release Dak true q)) (states Release true p es) = [true; true; true; true]
+  /\ option_map (dump_para Release Dak true) (last_opt (states Release true p es))
+     = Some (Ok (s "SHA256:\00000a a     1 n\00000a b 12345 m\00000aSHA512:\00000a a 1 n\00000a")).
+Proof. vm_compute. repeat split. Qed.
+
+(** A pdiff Index as mirrors publish it: SHA1-Current in the single-line form, History and
+    Patches multi-line, no SHA256-* fields, no Download fields (D8's situation). *)
+Example C12_nonvacuous_parsed_index :
+  let s := dec in
+  let raw := [(s "SHA1-Current", s "abc 12345");
+              (s "SHA1-History", s "\00000a d1     7 2026-01-01\00000a d2 12345 2026-01-02");
+              (s "SHA1-Patches", s "\00000a e1 1 2026-01-01\00000a e2 2 2026-01-02")] in
+  distinct_keys (map fst raw) = true
+  /\ raw_ok PdiffIndex Apt raw = true
+  /\ match mv_init (table_of PdiffIndex) raw with
+     | Ok q => dump_para PdiffIndex Apt true q
+               = Ok (s "SHA1-Current:  abc 12345\00000aSHA1-History:\00000a d1     7 2026-01-01\00000a d2 12345 2026-01-02\00000aSHA1-Patches:\00000a e1 1 2026-01-01\00000a e2 2 2026-01-02\00000a")
+     | Err _ => False
+     end.
 Proof. vm_compute. repeat split. Qed.
 
 Print Assumptions C12_tables_are_documented.
@@ -189,8 +278,12 @@ Print Assumptions C12_tables_well_formed.
 Print Assumptions C12_ffl_kind_matches_tables.
 Print Assumptions C12_record_roundtrip.
 Print Assumptions C12_parse_exposes_records.
+Print Assumptions C12_parse_single_line.
 Print Assumptions C12_init_parses_each_field.
 Print Assumptions C12_dump_total_on_subsets.
+Print Assumptions C12_every_subset_dumps.
+Print Assumptions C12_always_dumpable.
+Print Assumptions C12_parsed_dump_total.
 Print Assumptions C12_domain_is_dumpable.
 Print Assumptions C12_size_right_aligned.
 Print Assumptions C12_width_rule.
@@ -198,4 +291,6 @@ Print Assumptions C12_column_width.
 Print Assumptions C12_column_width_longest.
 Print Assumptions C12_build_in_domain.
 Print Assumptions C12_dump_is_documented_text.
+Print Assumptions C12_dump_is_documented_text_parsed.
+Print Assumptions C12_domain_paragraph_is_spec.
 Print Assumptions C12_paragraph_reparse.
